@@ -1,6 +1,7 @@
 import ProbLogModel.Formula
 import ProbLogProofs.Lemmas.FormulaBasic
 import ProbLogProofs.Lemmas.FormulaOps
+import ProbLogProofs.Lemmas.FormulaAcyclic
 import ProbLogProofs.Lemmas.FormulaAtom
 import ProbLogProofs.Lemmas.FormulaDisjunct
 /-!
@@ -111,7 +112,23 @@ theorem C11_addAtom_grows {S S' : Store} {ident : Ident} {pc : PClass} {w : Weig
     (h : S.addAtom ident pc w group name crExtra isExtra = (S', k)) : WF S' ∧ Grows S S' := by
   have hs := addAtom_step S ident pc w group name crExtra isExtra
   rw [h] at hs
-  exact ⟨hs.1 hw, hs.2⟩
+  exact ⟨hs.1 hw, hs.2.1⟩
+
+/-- The key returned by `add_atom`: either a constant with the store untouched, or a positive key `i` that the
+    atom table of the new store maps `ident` to - with `WF S'` (previous theorem) node `i` is an atom with this
+    identifier, and the entries of the atom table are never overwritten, so the same identifier keeps its key. -/
+theorem C11_addAtom_key {S S' : Store} {ident : Ident} {pc : PClass} {w : Weight} {group : Option Nat}
+    {name : Option Name} {crExtra isExtra : Bool} {k : Key}
+    (h : S.addAtom ident pc w group name crExtra isExtra = (S', k)) :
+    (S' = S ∧ (k = TRUE ∨ k = FALSE)) ∨
+    (∃ i : Nat, k = some (i : Int) ∧ lookup S'.idxAtom ident = some i) ∧
+      ∀ id v, lookup S.idxAtom id = some v → lookup S'.idxAtom id = some v := by
+  have hk := addAtom_key S ident pc w group name crExtra isExtra
+  have hs := addAtom_step S ident pc w group name crExtra isExtra
+  rw [h] at hk hs
+  rcases hk with h1 | h2
+  · exact Or.inl h1
+  · exact Or.inr ⟨h2, hs.2.2.1⟩
 
 theorem C11_addName_preserves {S : Store} (hw : WF S) (n : Name) (k : Key) (l : Label) (keep : Bool)
     (ρ : Nat → Bool) :
@@ -158,7 +175,96 @@ theorem C11_addDisjunct_others_unchanged {S S' : Store} {k : Int} {children : Li
   rw [hnodes, List.getElem?_set_ne (Ne.symm hne), List.getElem?_append_left hj]
 
 
-/-! ### 5. non-vacuity: concrete stores built with the model's own functions -/
+/-! ### 5. acyclic stores: the hypothesis `Consistent S' ρ` above is satisfiable, and pins the meaning down
+
+`Acyclic S`: every compound node's children are constants or refer to strictly earlier nodes; `keyBelow n k`: the key
+is a constant or refers to one of the first `n` nodes.  Everything the builder makes without `add_disjunct` is
+acyclic (`add_disjunct` is how cycles are made; for those the intended meaning is the least fixpoint, not covered
+here). -/
+
+/-- In an acyclic store every assignment `α` of the atoms extends to a consistent valuation, and any two consistent
+    valuations that agree on the atoms agree on every node: each key denotes exactly one Boolean function of the
+    atoms, so the equations of the theorems above determine the key's meaning. -/
+theorem C11_acyclic_exists_unique {S : Store} (ha : Acyclic S) :
+    (∀ α : Nat → Bool, ∃ ρ, Consistent S ρ ∧
+      (∀ i nd, S.nodes[i]? = some nd → nd.isAtom = true → ρ (i + 1) = α (i + 1)) ∧
+      (∀ j, S.nodes.length < j → ρ j = α j) ∧ ρ 0 = α 0) ∧
+    (∀ ρ1 ρ2, Consistent S ρ1 → Consistent S ρ2 →
+      (∀ i nd, S.nodes[i]? = some nd → nd.isAtom = true → ρ1 (i + 1) = ρ2 (i + 1)) →
+      ∀ k, keyBelow S.nodes.length k → keyVal ρ1 k = keyVal ρ2 k) := by
+  refine ⟨fun α => acyclic_exists ha α, fun ρ1 ρ2 h1 h2 hat k hk => ?_⟩
+  cases k with
+  | none => rfl
+  | some i =>
+    by_cases h0 : i = 0
+    · subst h0; rfl
+    · -- index 0 is never looked at for a non-zero key; patch ρ2 there
+      let ρ2' : Nat → Bool := fun j => if j = 0 then ρ1 0 else ρ2 j
+      have hkv : ∀ c : Key, keyVal ρ2' c = keyVal ρ2 c := by
+        intro c
+        cases c with
+        | none => rfl
+        | some j =>
+          by_cases hj : j = 0
+          · subst hj; rfl
+          · have : j.natAbs ≠ 0 := by omega
+            simp only [keyVal, hj, if_false, ρ2', this]
+      have hfun : keyVal ρ2' = keyVal ρ2 := funext hkv
+      have h2' : Consistent S ρ2' := by
+        intro n
+        have hn : n + 1 ≠ 0 := by omega
+        refine ⟨fun cs nm h => ?_, fun cs nm h => ?_⟩
+        · show (if n + 1 = 0 then _ else ρ2 (n + 1)) = _
+          rw [if_neg hn, (h2 n).1 cs nm h, hfun]
+        · show (if n + 1 = 0 then _ else ρ2 (n + 1)) = _
+          rw [if_neg hn, (h2 n).2 cs nm h, hfun]
+      have hall := acyclic_unique ha h1 h2' (fun n nd h hat' => by
+        show _ = (if n + 1 = 0 then _ else ρ2 (n + 1))
+        rw [if_neg (by omega)]; exact hat n nd h hat') (by show ρ1 0 = (if 0 = 0 then ρ1 0 else _); rfl)
+      rw [← hkv (some i)]
+      exact keyVal_congr (n := S.nodes.length) hall hk
+
+theorem C11_acyclic_empty (o : Opts) : Acyclic { opts := o } := fun _ _ h => by cases h
+
+/-- `_add_compound` on arguments that refer to existing nodes keeps the store acyclic and returns such a key. -/
+theorem C11_addCompound_acyclic {S S' : Store} {kind : Kind} {content : List Key} {readonly : Bool}
+    {name : Option Name} {placeholder : Bool} {compact : Option Bool} {k : Key} (hw : WF S) (ha : Acyclic S)
+    (hcontent : ∀ c ∈ content, keyBelow S.nodes.length c)
+    (h : addCompound S kind content readonly name placeholder compact = .ok (S', k)) :
+    Acyclic S' ∧ keyBelow S'.nodes.length k :=
+  have hc := addCompound_cres _ _ _ _ _ _ _ _ _ h
+  ⟨hc.acyclic ha hcontent, hc.key_below hw hcontent⟩
+
+theorem C11_addAtom_acyclic {S S' : Store} {ident : Ident} {pc : PClass} {w : Weight} {group : Option Nat}
+    {name : Option Name} {crExtra isExtra : Bool} {k : Key} (hw : WF S) (ha : Acyclic S)
+    (h : S.addAtom ident pc w group name crExtra isExtra = (S', k)) :
+    Acyclic S' ∧ keyBelow S'.nodes.length k := by
+  have hs := addAtom_step S ident pc w group name crExtra isExtra
+  have hk := addAtom_key S ident pc w group name crExtra isExtra
+  rw [h] at hs hk
+  refine ⟨hs.2.2.2 ha, ?_⟩
+  rcases hk with ⟨_, rfl | rfl⟩ | ⟨i, rfl, hl⟩
+  · show (0 : Int).natAbs ≤ _; simp
+  · trivial
+  · obtain ⟨hi, g, e, nm, hn⟩ := (hs.1 hw).atom ident i hl
+    have hlt : i - 1 < S'.nodes.length := lt_of_get hn
+    show (i : Int).natAbs ≤ _
+    rw [Int.natAbs_natCast]; omega
+
+theorem C11_addName_acyclic {S : Store} (ha : Acyclic S) (n : Name) (k : Key) (l : Label) (keep : Bool) :
+    Acyclic (S.addName n k l keep) ∧ (S.addName n k l keep).nodes.length = S.nodes.length :=
+  ⟨addName_acyclic ha n k l keep, addName_length S n k l keep⟩
+
+theorem C11_keyBelow_negate (n : Nat) (k : Key) (h : keyBelow n k) : keyBelow n (negate k) := keyBelow_negate n k h
+
+theorem C11_keyBelow_grows {S S' : Store} (hg : Grows S S') {k : Key} (h : keyBelow S.nodes.length k) :
+    keyBelow S'.nodes.length k := by
+  obtain ⟨ext, he⟩ := hg
+  have := congrArg List.length he
+  simp only [List.length_map, List.length_append] at this
+  exact keyBelow_mono (by omega) h
+
+/-! ### 6. non-vacuity: concrete stores built with the model's own functions -/
 
 theorem C11_wf_empty (o : Opts) : WF { opts := o } :=
   ⟨fun _ _ h => (by cases h), fun _ _ h => (by cases h), fun _ _ h => (by cases h)⟩
@@ -201,6 +307,16 @@ theorem exE6_spec : WF exE6 ∧ Grows exE5 exE6 ∧
     exE6.opts = exE5.opts := C11_addOr (S := exE5) (S' := exE6) (cs := [some 4, some 2]) (readonly := false)
   (name := none) (placeholder := false) (compact := none) (k := some 5) exE5_spec.1 rfl
 theorem exE6_wf : WF exE6 := exE6_spec.1
+
+theorem exE3_acyclic : Acyclic exE3 :=
+  (addAtom_step _ _ _ _ _ _ _ _).2.2.2 ((addAtom_step _ _ _ _ _ _ _ _).2.2.2
+    ((addAtom_step _ _ _ _ _ _ _ _).2.2.2 (C11_acyclic_empty {})))
+
+-- `exE4` (three atoms and the conjunction `1 ∧ ¬2`) is acyclic, so consistent valuations exist for every atom
+-- assignment and the conclusion of `C11_addAnd` is not vacuous there.
+example : Acyclic exE4 ∧ keyBelow exE4.nodes.length (some 4) :=
+  C11_addCompound_acyclic (S := exE3) (S' := exE4) (kind := .conj) (content := [some 1, some (-2), some 1, some 0])
+    (readonly := true) (name := none) (placeholder := false) (compact := none) exE3_wf exE3_acyclic (by decide) rfl
 
 -- Theorem 1: the premises hold for a concrete pair of stores, and the conclusion is informative.
 example : Grows exE3 exE6 ∧ ∀ ρ, Consistent exE6 ρ → keyVal ρ (some 4) = (ρ 1 && !ρ 2) := by
